@@ -149,6 +149,13 @@ def _guard_clauses(tree: ast.AST) -> None:
 
 
 # --------------------------------------------------------------------------- argument passing style
+def unparse_name(e: ast.AST) -> str:
+    try:
+        return ast.unparse(e)
+    except Exception:  # pragma: no cover
+        return ""
+
+
 def signature_table(trees) -> dict:
     """What a call can be bound against without type information: {'class': {name: params}, 'func': {name: params}, 'method': {name: params}} where a name is
     listed only when every definition of it in the package has the same parameter names (so the binding does not depend on dispatch)."""
@@ -168,7 +175,13 @@ def signature_table(trees) -> dict:
         for c in ast.walk(tree):
             if isinstance(c, ast.ClassDef):
                 init = [f for f in c.body if isinstance(f, ast.FunctionDef) and f.name == "__init__"]
-                classes.setdefault(c.name, set()).add(params(init[0], True) if len(init) == 1 else None)
+                record = any(unparse_name(b) in ("NamedTuple", "typing.NamedTuple") for b in c.bases) or any(unparse_name(d.func if isinstance(d, ast.Call) else d) in ("dataclass", "dataclasses.dataclass") for d in c.decorator_list)
+                if not init and record:
+                    # a NamedTuple / dataclass is constructed with its annotated fields, in order
+                    classes.setdefault(c.name, set()).add(tuple(st.target.id for st in c.body if isinstance(st, ast.AnnAssign) and isinstance(st.target, ast.Name)))
+                    continue_methods = True
+                else:
+                    classes.setdefault(c.name, set()).add(params(init[0], True) if len(init) == 1 else None)
                 for f in c.body:
                     if isinstance(f, ast.FunctionDef) and f.name != "__init__":
                         static = any(isinstance(d, ast.Name) and d.id == "staticmethod" for d in f.decorator_list)
